@@ -15,9 +15,18 @@ Apply(e) == CASE e.op = "modify" -> Modify(e.f) [] e.op = "addinc" -> AddInc(e.f
               [] e.op = "dropinc" -> DropInc(e.f, e.g) [] e.op = "addhinc" -> AddHInc(e.f, e.g)
               [] e.op = "drophinc" -> DropHInc(e.f, e.g) [] e.op = "delete" -> Delete(e.f)
               [] e.op = "recreate" -> Recreate(e.f) [] e.op = "clean" -> Clean
+\* a project with many sources (more products than any batching of the clean command): what clean leaves
+\* behind, what a following build fails to recreate, how many objects a header change recompiles
+Big(e) == /\ Need(e.exit = 0, "BuildProceeds", e.exit)
+          /\ Need(e.left = <<>>, "CleanRemovesEveryProduct", e.left)
+          /\ Need(e.missing = <<>>, "CleanThenBuildRecreatesEveryProduct", e.missing)
+          /\ Need(e.recompiled = e.nsources, "ChangedIncludeClosureRecompiles", <<e.recompiled, e.nsources>>)
+          /\ Need(e.output = e.want, "ProgramOutputIsCurrent", <<e.output, e.want>>)
+          /\ UNCHANGED vars
 TraceNext ==
   /\ l <= Len(Traces[t].events)
   /\ LET e == Traces[t].events[l] IN
+     IF e.op = "big" THEN Big(e) ELSE
      IF e.op = "build" THEN
         /\ Need(e.exit = 0, "BuildProceeds", e.exit)
         /\ Need(Stale \subseteq ToSet(e.compiled), "ChangedIncludeClosureRecompiles", Stale \ ToSet(e.compiled))
